@@ -104,24 +104,26 @@ void h_c12_flush_bitpack_form(void) {
 
 /* the decoder accepts both run forms as the specification defines them: RLE run (value little endian,
  * masked), bit-packed run with any number of groups, zero-length runs (an RLE run of length 0 still
- * carries its repeated-value bytes) */
+ * carries its repeated-value bytes).  For the zero-length forms the stream ends right after the run, so
+ * that "skipped, not rejected" is observable: pos at the end, status OK, no further run. */
 void h_c12_start_new_run_forms(void) {
   carquet_rle_decoder_t dec;
-  size_t size = nondet_size_t();
-  __CPROVER_assume(size <= 16);
-  uint8_t *d = malloc(size);
+  uint8_t *d = malloc(10);               /* a 5-byte header, 4 value bytes, one spare */
   __CPROVER_assume(d != NULL);
   int w = nondet_int();
   __CPROVER_assume(w >= 0 && w <= 32);
-  dec.data = d; dec.size = size; dec.pos = 0; dec.bit_width = w; dec.value_mask = SPEC_RLE_MASK(w);
-  dec.run_remaining = 0; dec.bitpack_pos = 0; dec.bitpack_count = 0; dec.status = CARQUET_OK;
-  dec.in_rle_run = nondet_bool();
-  __CPROVER_assume(size >= 10);          /* room for a 5-byte header, 4 value bytes and one more byte */
   int n = SPEC_ULEB_LEN(d[0], d[1], d[2], d[3], d[4]);
   __CPROVER_assume(n != 0);
   uint32_t hdr = SPEC_ULEB_VAL(n, d[0], d[1], d[2], d[3], d[4]);
   size_t vb = (size_t)SPEC_RLE_VALUE_BYTES(w);
   uint32_t val = SPEC_RLE_LE_VALUE(vb, d[n], d[n + 1], d[n + 2], d[n + 3]) & SPEC_RLE_MASK(w);
+  size_t run_bytes = (size_t)n + (SPEC_IS_RLE_HEADER(hdr) ? vb : 0);
+  size_t size = nondet_size_t();
+  __CPROVER_assume(size <= 10 && size >= run_bytes);
+  if (SPEC_HEADER_COUNT(hdr) == 0) __CPROVER_assume(size == run_bytes);
+  dec.data = d; dec.size = size; dec.pos = 0; dec.bit_width = w; dec.value_mask = SPEC_RLE_MASK(w);
+  dec.run_remaining = 0; dec.bitpack_pos = 0; dec.bitpack_count = 0; dec.status = CARQUET_OK;
+  dec.in_rle_run = nondet_bool();
   G_zero_rle_seen = 0; G_zero_rle_pos = 0;
   bool r = start_new_run(&dec);
   if (SPEC_IS_RLE_HEADER(hdr) && SPEC_HEADER_COUNT(hdr) > 0) {
@@ -138,9 +140,10 @@ void h_c12_start_new_run_forms(void) {
   } else if (SPEC_IS_RLE_HEADER(hdr)) {
     __CPROVER_assert(G_zero_rle_seen, "zero-length RLE run is skipped, not rejected");
     __CPROVER_assert(G_zero_rle_pos == (size_t)n + vb, "zero-length RLE run: the repeated-value bytes are consumed before the next run");
-    CQV_CANARY("zero-length RLE run form");
+    __CPROVER_assert(!r && dec.status == CARQUET_OK && dec.pos == size, "zero-length RLE run at the end of the stream: end of data, no error");
+    if (vb > 0) CQV_CANARY("zero-length RLE run form with value bytes");
   } else {
-    /* nothing follows a zero-length bit-packed run: the next run is parsed from pos == n (twin contract) */
+    __CPROVER_assert(!r && dec.status == CARQUET_OK && dec.pos == size, "zero-group bit-packed run at the end of the stream: end of data, no error");
     CQV_CANARY("zero-length bit-packed run form");
   }
 }
